@@ -2,6 +2,7 @@ import FlexiVerif.Model.Flw
 import FlexiVerif.Model.Names
 import FlexiVerif.Model.Bg
 import FlexiVerif.Model.FlwTrace
+import FlexiVerif.Model.WMode
 import Driver.Codec
 /-
   Driver for the `Flw` model (C01, C06, C07, C08, C09, C11, C14, C15, C16, C18, C19).
@@ -17,6 +18,35 @@ structure St where
   linkText : String := "-"               -- rendered symlink target (rendered when it was created)
   asyncMode : Bool := false              -- MODE async:..
   asyncDead : Bool := false              -- the async writer thread has been shut down
+  mode : Option WMode.WMode := none      -- MODE: the PUBLIC write mode; the buffer capacity the model runs with is derived from it
+
+/-- the `MODE` line names a public `WriteMode` variant -/
+def parseMode (m : String) : Option WMode.WMode :=
+  match m.splitOn ":" with
+  | ["direct"] => some .direct
+  | ["capture"] => some .supportCapture
+  | ["bufdef"] => some .bufferDontFlush
+  | ["buf", c] => c.toNat?.map .bufferDontFlushWith
+  | ["bufflushdef"] => some .bufferAndFlush
+  | ["bufflush", c] => c.toNat?.map (fun c => .bufferAndFlushWith c 3600000)
+  | ["bufflush", c, i] => match c.toNat?, i.toNat? with
+    | some c, some i => some (.bufferAndFlushWith c i)
+    | _, _ => none
+  | ["asyncdef"] => some .async
+  | ["async", p, g] => match p.toNat?, g.toNat? with
+    | some p, some g => some (.asyncWith p g 0)
+    | _, _ => none
+  | ["async", p, g, i] => match p.toNat?, g.toNat?, i.toNat? with
+    | some p, some g, some i => some (.asyncWith p g i)
+    | _, _, _ => none
+  | _ => none
+
+/-- once a `MODE` line was read, the capacity of every configuration of the case is the one
+    `WriteMode::buffersize` gives for that mode (what the implementation is built with) -/
+def St.patch (s : St) (cfg : Cfg) : Cfg :=
+  match s.mode with
+  | some m => { cfg with cap := m.buffersize }
+  | none => cfg
 
 def optNat (s : String) : Option (Option Nat) :=
   if s = "_" then some none else s.toNat?.map some
@@ -114,7 +144,7 @@ def step (s : St) (toks : List String) : St × String :=
     | _, _, _, _, _ => (s, "bad-op")
   | "CFG" :: rest =>
     match parseCfg rest with
-    | some cfg => ({ s with st := Flw.init cfg s.st.dir }, "ok")
+    | some cfg => ({ s with st := Flw.init (s.patch cfg) s.st.dir }, "ok")
     | none => (s, "bad-op")
   | ["W", b, now, fl] =>
     match hexToBytes b, now.toNat?, parseFaults fl with
@@ -215,12 +245,12 @@ def step (s : St) (toks : List String) : St × String :=
   | ["SHUT"] => apply s .shutdown 0 {}
   | "RESTART" :: rest =>
     match parseCfg rest with
-    | some cfg => apply s (.restart cfg) 0 {}
+    | some cfg => apply s (.restart (s.patch cfg)) 0 {}
     | none => (s, "bad-op")
   | "RESET" :: b :: d :: sfx :: cur :: fmt :: rest =>
     match hexToText b, optText d, optText sfx, optText cur, fmt.toNat?, parseCfg rest with
     | some b, some d, some sfx, some cur, some fmt, some cfg =>
-      let (s', r) := apply s (.reset cfg) 0 {}
+      let (s', r) := apply s (.reset (s.patch cfg)) 0 {}
       ({ s' with oldSpecs := s.oldSpecs ++ [s.spec], spec := ⟨b, d, sfx, cur.getD "rCURRENT".toList, fmt⟩ }, r)
     | _, _, _, _, _, _ => (s, "bad-op")
   | ["EXTREN"] => apply s .extRename 0 {}
@@ -312,7 +342,13 @@ def step (s : St) (toks : List String) : St × String :=
       (s, (if ops.isEmpty then "-" else ",".intercalate ops) ++ "|" ++ (if fin.isEmpty then "-" else " ".intercalate fin))
     | _, _ => (s, "bad-op")
   | "NOTE" :: _ => (s, "ok")
-  | ["MODE", m] => ({ s with asyncMode := m.startsWith "async" }, "ok")
+  | ["MODE", m] =>
+    match parseMode m with
+    | some wm =>
+      let s1 := { s with asyncMode := wm.isAsync, mode := some wm }
+      -- (the line precedes the first operation: no writer exists yet)
+      ({ s1 with st := { s1.st with cfg := s1.patch s1.st.cfg } }, "ok")
+    | none => (s, "bad-op")
   | ["BGCLEAN", _] => (s, "ok")
   | ["FOREIGN", _, _] => (s, "ok")
   | ["PREFILE", _, _] => (s, "ok")
